@@ -523,6 +523,13 @@ func c06Gen(rng *rand.Rand) *metaCase {
 		}
 		feats["exclude-file-in-two-contexts"] = true
 	}
+	// an include file with two blocks: their identical start, marker and end lines are all kept
+	if core.Chance(rng, 1, 5) {
+		p.Files.Include["twoblocks"] = "##!> assemble\n  a1\n  ##!=>\n  b1\n##!<\n##!> assemble\n  a2\n  ##!=>\n  b2\n##!<\nplainentry\n"
+		p.Files.Exclude["twoblocksx"] = core.Pick(rng, "plainentry\n", "notlisted\n", "b2\n")
+		main = append(main, "##!> include-except twoblocks twoblocksx"+core.Pick(rng, "", " -- 1 ONE"))
+		feats["include-except-of-file-with-two-blocks"] = true
+	}
 	// entries that end in one key once another key has been cut off: every entry is rewritten at most once
 	if core.Chance(rng, 1, 5) {
 		p.Files.Include["chained"] = "ab~@\ncd\nef~\ngh@~\nij@@\n"
@@ -773,6 +780,19 @@ func init() {
 					raTerminators(m.Prog, i)
 					cs = append(cs, m)
 				}
+			}
+			// a hundred include files nested in each other (the deepest nesting the tool accepts)
+			{
+				p := &ra.Program{Lane: "include-top", Features: []string{"100-nested-includes"}, Files: ra.Files{Include: map[string]string{}, Exclude: map[string]string{}}}
+				for k := 1; k <= 100; k++ {
+					text := fmt.Sprintf("level%03d\n", k)
+					if k < 100 {
+						text += fmt.Sprintf("##!> include nest%03d\n", k+1)
+					}
+					p.Files.Include[fmt.Sprintf("nest%03d", k)] = text
+				}
+				p.Main = "top\n##!> include nest001\n"
+				cs = append(cs, &metaCase{Prog: p, Kind: "include"})
 			}
 			// more than a hundred include lines in one file (nesting is bounded, breadth is not)
 			{
